@@ -1,7 +1,8 @@
 (** C03 — all access paths to a compressed graph return the same successors.
     Statements and [Print Assumptions] only. *)
 From WG Require Import Base.Prelude Codes.Codes BV.Model BV.RefSel BV.Statements BV.Bits
-  BV.BitsFacts BV.SelStatements BV.GreedyFacts BV.Access BV.AccessStatements BV.AccessFacts.
+  BV.BitsFacts BV.SelStatements BV.GreedyFacts BV.Access BV.AccessStatements BV.AccessFacts
+  BV.MaskedIter BV.MaskedIterStatements BV.MaskedIterFacts.
 Local Open Scope N_scope.
 
 (** random access (references resolved recursively through the offsets) returns the list
@@ -73,6 +74,44 @@ Theorem C03_offdeg_from_ring_eq : S_offdeg_from_ring_eq.
 Proof. exact offdeg_from_ring_eq. Qed.
 Print Assumptions C03_offdeg_from_ring_eq.
 
+(** [MaskedIter] at the level of its fields ([blocks], [block_idx], per-item decrements,
+    [size]): on every block list that does not overrun the referenced list, has blocks
+    >= 1 after the first and -- when the number of blocks is even -- leaves a non-empty
+    tail, [new] + [next] until [None] never fails (no index out of bounds, no underflow, no
+    debug assertion), yields exactly [mask true bs l], and [len()] is its length *)
+Theorem C03_masked_iter_denotes : S_masked_iter_denotes.
+Proof. exact masked_iter_denotes. Qed.
+Print Assumptions C03_masked_iter_denotes.
+
+(** the last condition is necessary: blocks [2;3] over a list of 5 items (accepted by the
+    sequential decoder, [wf_record]) make [MaskedIter::next] index out of bounds *)
+Theorem C03_masked_iter_needs_tail : S_masked_iter_needs_tail.
+Proof. exact masked_iter_needs_tail. Qed.
+Print Assumptions C03_masked_iter_needs_tail.
+
+(** the compressor's copy blocks always satisfy the three conditions ... *)
+Theorem C03_diff_blocks_ok : S_diff_blocks_ok.
+Proof. exact diff_blocks_ok. Qed.
+Print Assumptions C03_diff_blocks_ok.
+
+(** ... hence no step of the masked iterator fails on what the compressor emits *)
+Theorem C03_masked_iter_total : S_masked_iter_total.
+Proof. exact masked_iter_total. Qed.
+Print Assumptions C03_masked_iter_total.
+
+(** [Succ::next] at the level of its fields (cached next nodes with [usize::MAX] as
+    "exhausted", the interval cursor with the fake final interval, residual gaps read on
+    demand, [size]) yields the list of the [merge3]-based model and never fails *)
+Theorem C03_succ_iter_denotes : S_succ_iter_denotes.
+Proof. exact succ_iter_denotes. Qed.
+Print Assumptions C03_succ_iter_denotes.
+
+(** end to end on the encoder's bit stream: random access through both state machines,
+    nested along the reference chain, never fails and returns the list of the node *)
+Theorem C03_ra_sm_eq : S_ra_sm_eq.
+Proof. exact ra_sm_eq. Qed.
+Print Assumptions C03_ra_sm_eq.
+
 (** non-vacuity: a graph with copied blocks, intervals, residuals, an empty node and
     reference chains, encoded with the greedy selector (proved valid and depth-bounded, C06);
     every path of the model evaluated on the emitted bits *)
@@ -94,4 +133,54 @@ Example C03_nonvacuous :
   /\ acc_next_successors true cs p 7 s = Some g
   /\ acc_offdeg_from true cs p offs s 4 = Some [(79, 4); (98, 3); (116, 7)]
   /\ acc_offdeg_from_ring true cs p offs s 4 = Some [(79, 4); (98, 3); (116, 7)].
+Proof. vm_compute. repeat split; reflexivity. Qed.
+
+(** the state machines on the same stream (node 6 copies from node 3 which copies nothing;
+    node 1 copies from node 0), and on hand-made block lists: well-formed ones and the
+    malformed ones that make the real iterator panic *)
+Example C03_sm_nonvacuous :
+  let p := mkParams 3 (Some 2) 2 in
+  let cs := mkCodes Gamma Unary Gamma Gamma (Zeta 3) in
+  let g := [[1;2;3;5;9]; [1;2;3;5;8]; []; [1;2;5;8;9;10;11]; [0;1;2;3]; [2;5;8]; [1;2;5;8;9;10;12]] in
+  let sel := greedy_sel p cs 0 g in
+  let s := enc_stream true cs p g sel [true; false; true] in
+  let offs := enc_offs true cs p g sel in
+  acc_ra_sm true true cs p offs s 6 = Some [1;2;5;8;9;10;12]
+  /\ acc_ra_sm false true cs p offs s 1 = Some [1;2;3;5;8]
+  /\ mi_ok [2;2;1] [1;2;3;4;5;6]
+  /\ mi_collect true [1;2;3;4;5;6] [2;2;1] = MOk (3, [1;2;5])
+  /\ mi_collect true [1;2;3;4;5;6] [0;2] = MOk (4, [3;4;5;6])
+  /\ mi_collect true [1;2;3;4;5] [2;3] = MErr EIndex
+  /\ mi_collect false [1;2;3;4;5] [2;3] = MErr EIndex
+  /\ mi_collect true [] [] = MErr EIndex
+  /\ mi_collect true [1;2] [3] = MErr EUnderflow
+  /\ mi_collect true [1;2;3;4] [1;0;1] = MErr EAssert
+  /\ mi_collect false [1;2;3;4] [1;0;1] = MOk (2, [1;2])
+  /\ succ_collect true [10;20;30;40] (mkRecord 7 1 [1;1] [10;30;40] [(12,3)] [35])
+     = MOk [10;12;13;14;30;35;40]
+  /\ succ_collect true [] (mkRecord 9 0 [] [] [(12,3);(20,2)] [5;16;35]) = MErr EIndex.
+Proof.
+  vm_compute. repeat split; try reflexivity; try (intros; discriminate).
+  repeat constructor; discriminate.
+Qed.
+
+(** a non-canonical but decodable stream (node 1 = the first two successors of node 0,
+    written with the blocks [2;3] that reach the end of the referenced list instead of the
+    compressor's [2]): every sequential path and the denotational random access return the
+    lists, random access through the index-level [MaskedIter] fails ([blocks[2]] out of
+    bounds when [Succ::next] pre-fetches the copied node after the last one) *)
+Example C03_noncanonical_stream :
+  let p := mkParams 3 (Some 2) 2 in
+  let cs := mkCodes Gamma Unary Gamma Gamma (Zeta 3) in
+  let recs := [ node_fields p 0 [1;2;3;4;5] 0 [];
+                [(KOutdeg, 2); (KRef, 1); (KBlockCount, 2); (KBlock, 2); (KBlock, 2)] ] in
+  let s := graph_bits true cs recs in
+  let offs := prefix_sums 0 (node_bitlens true cs recs) in
+  acc_iter_from true cs p offs s 0 = Some [[1;2;3;4;5]; [1;2]]
+  /\ acc_next_successors true cs p 2 s = Some [[1;2;3;4;5]; [1;2]]
+  /\ acc_ra true cs p offs s 1 = Some [1;2]
+  /\ acc_ra_merge true cs p offs s 1 = Some [1;2]
+  /\ acc_ra_sm true true cs p offs s 0 = Some [1;2;3;4;5]
+  /\ acc_ra_sm true true cs p offs s 1 = None
+  /\ acc_ra_sm false true cs p offs s 1 = None.
 Proof. vm_compute. repeat split; reflexivity. Qed.
